@@ -180,10 +180,9 @@ func readOracles(db *clover.DB, q QSpec, bigIntsAway bool) (fails []string) {
 		}
 		if first != nil && len(base) > 0 && limit != 0 {
 			// with a total order (or no sort) the first document is determined
-			if totalOrNoSort(q) && Tstr(tDoc(first)) != Tstr(tDoc(base[0])) {
+			// FindFirst is FindAll with the limit replaced by 1: the very same plan, hence the very same first document
+			if Tstr(tDoc(first)) != Tstr(tDoc(base[0])) {
 				bad("FindFirst returned %s, FindAll's first document is %s", first.ObjectId(), base[0].ObjectId())
-			} else if len(opts) > 0 && cmpDocs(first, base[0], opts) != 0 {
-				bad("FindFirst's document does not tie with FindAll's first document under the sort")
 			}
 		}
 		// windows are slices of the full sequence when the order is total
